@@ -102,10 +102,12 @@ def _job(arg):
     if isinstance(st, core.Viol):
         st.family = m.name
         return mi, hist, None, [st]
+    # the key is taken before the invariant runs: the invariant's own queries must not be
+    # able to hide (or create) state differences such as primed caches
+    k = hashlib.sha1(repr(m.key(st, hist)).encode()).hexdigest()
     vs = _inv(m, st, hist)
     for v in vs:
         v.family = m.name
-    k = hashlib.sha1(repr(m.key(st, hist)).encode()).hexdigest()
     ob = m.observe(st, hist)
     if ob is not None:
         k = (k, ob)      # ob = (observation key, digest)
